@@ -275,7 +275,9 @@ def check_conditional_fixed(case, ctx):
     gs = case["gs"]
 
     def check_const(label):
-        for g in gs + [np.array(gs)]:
+        # conditioning values in every form a caller passes: float / int scalars, numpy scalars, float / int arrays
+        gi = [int(round(g)) for g in gs]
+        for g in gs + [np.array(gs)] + gi[:1] + [np.array(gi), np.int64(gi[0]), np.float64(gs[0]), np.array(gs[0])]:
             pv = cond._get_param_values(g)
             for k, v in fixed.items():
                 if not np.all(np.asarray(pv[k]) == v):
@@ -300,7 +302,8 @@ def check_conditional_fixed(case, ctx):
         return
     for i, pp in enumerate(cond.parameters_per_interval):
         for k, v in fixed.items():
-            if not abs(float(pp[k]) - v) <= 1e-12 * abs(v):
+            # (location-like parameters live on an additive scale, as in part `fixed`)
+            if not abs(float(pp[k]) - v) <= 1e-12 * (max(abs(v), 1.0) if k in ("mu", "loc", "gamma") else abs(v)):
                 ctx.violation(f"cond_fixed_changed:{family}:{k}", f"interval {i}: {k}={pp[k]!r}, fixed at {v!r}")
                 return
     check_const("after fit")
